@@ -125,19 +125,20 @@ Fixpoint parse (fuel : nat) (fs : list frame) (out : list Z)
   | O => None
   | S fuel' =>
       match out with
-      | [-1; fin] => Some ([], fin)
-      | status :: n :: rest =>
-          match fs with
-          | [] => None
-          | f :: fs' =>
-              if (n <? 0) || (Z.of_nat (length rest) <? n) then None
-              else
-                let resp := firstn (Z.to_nat n) rest in
-                match parse fuel' fs' (skipn (Z.to_nat n) rest) with
-                | Some (t, fin) => Some ((f, status, resp) :: t, fin)
-                | None => None
-                end
-          end
+      | a :: b :: rest =>
+          if a =? -1 then match rest with [] => Some ([], b) | _ => None end   (* end marker, finished? *)
+          else
+            (* a record: status a, b responses *)
+            match fs with
+            | [] => None
+            | f :: fs' =>
+                if (b <? 0) || (Z.of_nat (length rest) <? b) then None
+                else
+                  match parse fuel' fs' (skipn (Z.to_nat b) rest) with
+                  | Some (t, fin) => Some ((f, a, firstn (Z.to_nat b) rest) :: t, fin)
+                  | None => None
+                  end
+            end
       | _ => None
       end
   end.
@@ -157,20 +158,26 @@ Definition resp_eqb (a b : list Z) : bool :=
        the connection without any response;
    (2) until opened, a MSG/CLO frame gets no response and closes the connection;
    (3) a frame that failed, and any CLO, is the last one processed. *)
+Definition head_check (acked opened : bool) (f : frame) (status : Z) (resp : list Z) : bool :=
+  let c1 := if acked then true
+            else if is_hel f then resp_eqb resp [] || ((status =? S_OK) && resp_eqb resp [R_ACK])
+            else negb (status =? S_OK) && resp_eqb resp [] in
+  let c2 := if opened then true
+            else if is_service f then negb (status =? S_OK) && resp_eqb resp [] else true in
+  let c3 := if is_clo f then negb (status =? S_OK) && resp_eqb resp [] else true in
+  c1 && c2 && c3.
+Definition acked_next (acked : bool) (f : frame) (status : Z) (resp : list Z) : bool :=
+  acked || (is_hel f && (status =? S_OK) && resp_eqb resp [R_ACK]).
+Definition opened_next (opened : bool) (f : frame) (status : Z) (resp : list Z) : bool :=
+  opened || (is_opn f && (status =? S_OK) && resp_eqb resp [R_OPN]).
+
 Fixpoint scan (acked opened : bool) (t : list (frame * Z * list Z)) : bool :=
   match t with
   | [] => true
   | (f, status, resp) :: r =>
-      let last_ok := match r with [] => true | _ => (status =? S_OK) && negb (is_clo f) end in
-      let c1 := if acked then true
-                else if is_hel f then resp_eqb resp [] || ((status =? S_OK) && resp_eqb resp [R_ACK])
-                else negb (status =? S_OK) && resp_eqb resp [] in
-      let c2 := if opened then true
-                else if is_service f then negb (status =? S_OK) && resp_eqb resp [] else true in
-      let c3 := if is_clo f then negb (status =? S_OK) && resp_eqb resp [] else true in
-      let acked' := acked || (is_hel f && (status =? S_OK) && resp_eqb resp [R_ACK]) in
-      let opened' := opened || (is_opn f && (status =? S_OK) && resp_eqb resp [R_OPN]) in
-      last_ok && c1 && c2 && c3 && scan acked' opened' r
+      (match r with [] => true | _ => (status =? S_OK) && negb (is_clo f) end) &&
+      head_check acked opened f status resp &&
+      scan (acked_next acked f status resp) (opened_next opened f status resp) r
   end.
 
 Definition oracle (c : case) (out : list Z) : bool :=
